@@ -1,7 +1,7 @@
 """C20 Data channel selection follows Channel Selection Algorithm #1 (second sentence + algorithm shape)."""
 from .lib.match import *
 
-SELECT = r'^bluetoe::link_layer::channel_map::|^bluetoe::link_layer::in_map$|^bluetoe::link_layer::link_layer::(adv_received|handle_pending_ll_control)$|^bluetoe::link_layer::details::connection_state_base::'
+SELECT = r'^bluetoe::link_layer::channel_map::|^bluetoe::link_layer::in_map$|^bluetoe::link_layer::link_layer::(adv_received|handle_pending_ll_control|start_advertising_impl)$|^bluetoe::link_layer::details::connection_state_base::'
 UNITS = lambda u: u in ('lib_channel_map', 'w_inst_ll') or u.startswith('t_link_layer_channel_map')
 CM = 'bluetoe::link_layer::channel_map::'
 SPEC_MAX_LATENCY = 499   # Core 5.x Vol 6 Part B 4.5.1: connPeripheralLatency 0..499 (bluetoe: maximum_link_layer_peripheral_latency, enforced by link_layer::parameters_valid)
@@ -64,7 +64,7 @@ def run(chk, facts, tier):
     chk.rule('csa1-shape', 'unmapped channel advances by hop modulo 37 from hop; used channel -> itself, unused -> used_channels[unmapped % count]; used_channels collected ascending by channel', floor=3)
     chk.rule('index-tracks-event-counter', 'connection_state_base: every function that changes event_counter_ changes channel_index_ by the same step modulo 37 (and resets both together); '
              'where the step is signed, the constant added to keep the unsigned sum from wrapping is a multiple of 37 and at least the maximum peripheral latency (499)', floor=4)
-    chk.rule('connect-needs-valid-map', 'link_layer::adv_received enters connecting only when channels_.reset(map, hop) returned true; hop is body[33] & 0x1f', floor=1)
+    chk.rule('connect-needs-valid-map', 'link_layer::adv_received enters connecting only when channels_.reset(map, hop) returned true; hop is body[33] & 0x1f; a deferred channel map indication does not survive its connection', floor=2)
     fns = [f for f in variants(facts, CM + 'reset', chk) if len(f.params) == 2]
     chk.require(bool(fns), 'channel_map::reset(map, hop) not found')
     for fn in fns:
@@ -113,6 +113,11 @@ def run(chk, facts, tier):
         chk.instance('csa1-shape', fn, 'used[count++] = channel for ascending channel', ok, '' if ok else 'used channel list is not built in ascending order', key='used list')
     index_tracks(chk, facts)
 
+    # a channel map comes from the current connection only: a LL_CHANNEL_MAP_IND still waiting for its instant is dropped with the connection
+    for fn in variants(facts, 'bluetoe::link_layer::link_layer::start_advertising_impl', chk):
+        clr = [st for tgt, op, val, st in stores(fn.body) if target_name(tgt) == 'defered_ll_control_pdu_' and not fn.guards(st)]
+        chk.instance('connect-needs-valid-map', fn, 'start_advertising_impl drops a deferred LL control PDU', len(clr) == 1,
+                     '' if clr else 'a channel map indication deferred in a lost connection survives: when the next connection reaches that event counter the old map is applied and the hop sequence no longer follows the connect request', key='deferred map dropped')
     for fn in variants(facts, 'bluetoe::link_layer::link_layer::adv_received', chk):
         st = [s for tgt, op, val, s in stores(fn.body) if is_name(tgt, 'state_') and strip_casts(val).n == 'connecting']
         ok = len(st) == 1
